@@ -386,8 +386,15 @@ impl ClusterStorage {
         let notifier = self.notifier.clone();
         let result_notifier = self.result_notifiers.remove(&log_id);
 
+        #[cfg(agdb_verif)]
+        crate::verif::commit_event(log.index);
+
         tokio::spawn(async move {
+            #[cfg(agdb_verif)]
+            crate::verif::exec_event("start", log.index).await;
             let result = log.data.exec(db.clone(), db_pool).await;
+            #[cfg(agdb_verif)]
+            crate::verif::exec_event("end", log.index).await;
             let _ = notifier.send(log.index);
             let _ = cluster_log.log_executed(log_id).await;
 
